@@ -159,7 +159,7 @@ def run(ctx, model_ok):
     flush()
 
     # random structured programs
-    n = 60000 if thorough else 12000
+    n = 60000 if thorough else 8000
     done = 0
     while done < n:
         ps = L.random_programs(ctx.rng, min(20000, n - done))
